@@ -130,6 +130,13 @@ def shard_main(argv):
                 if len(ctx.errors) > 20:
                     break
         ctx.case = None
+        if tier == "thorough" and idx == 0 and not replay and prop in ("C02", "C03", "C04", "C05", "C06", "C07", "C14"):
+            # the repository's own unit tests under the monitors (DESIGN.md 7.3)
+            from vf import repo_tests
+
+            ctx.case = {"fam": "repo_unit_tests_under_monitors"}
+            repo_tests.run(ctx, prop)
+            ctx.case = None
         if hasattr(mod, "teardown"):
             mod.teardown(ctx)
     except Exception:
